@@ -41,7 +41,7 @@ def batches(ctx):
     if ctx.quick:
         for hs in (["a", "."], ["A", "*"], ["b"]):
             out.append(b("pairs<=3 " + "".join(hs), ["pairs"], hs, l1=3))
-        out.append(b("variants", ["variants"], SIGMA1, l1=2, l2=2))
+        out.append(b("variants+dots", ["variants", "dots"], SIGMA1, l1=2, l2=2))
         q2 = ["a", "A", "1", "*", ".", "[", "]", ":", "<e9>", "<E9>", "xFF", "<v4>", "<v4z>", "<m4>", "<m4x>", "<v6>", "<v6a>"]
         for i in range(0, len(q2), 6):
             out.append(b("alpha<=2 #%d" % (i // 6), ["alpha"], q2[i:i + 6], l3=2, sigma2=q2))
@@ -49,6 +49,7 @@ def batches(ctx):
         for h in SIGMA1:
             out.append(b("pairs<=4 " + h, ["pairs"], [h], l1=4))
         out.append(b("variants", ["variants"], SIGMA1, l1=3, l2=3))
+        out.append(b("dots", ["dots"], SIGMA1))
         for i in range(0, len(SIGMA2), 2):
             out.append(b("alpha<=3 #%d" % (i // 2), ["alpha"], SIGMA2[i:i + 2], l3=3))
     return out
